@@ -209,13 +209,54 @@ func Unit(res *vc.UnitResult, opt Options) ([]Status, error) {
 		sb.WriteString("))")
 		q.goal = sb.String()
 	}
+	// reachability (cover) queries expect "sat": they go to z3 with a short limit, separately from the proofs
+	var coverGroups, proofGroups []*grp
+	for _, g := range groups {
+		cg := &grp{pc: g.pc}
+		pg := &grp{pc: g.pc}
+		for _, q := range g.queries {
+			if q.goal == "" {
+				cg.queries = append(cg.queries, q)
+			} else {
+				pg.queries = append(pg.queries, q)
+			}
+		}
+		if len(cg.queries) > 0 {
+			coverGroups = append(coverGroups, cg)
+		}
+		if len(pg.queries) > 0 {
+			proofGroups = append(proofGroups, pg)
+		}
+	}
+	if len(coverGroups) > 0 {
+		saved := opt.BatchMs
+		opt.BatchMs = 400
+		ans, _, err := runBatch("z3-5.1.0", "z3-new", "cover.smt2", coverGroups)
+		opt.BatchMs = saved
+		if err != nil {
+			return nil, err
+		}
+		for _, g := range coverGroups {
+			for _, q := range g.queries {
+				for _, i := range q.idxs {
+					out[i] = Status{Result: ans[q], Backend: "z3-5.1.0"}
+				}
+			}
+		}
+	}
 	order := []struct{ name, bin string }{{"cvc5-1.0", "cvc5"}, {"z3-5.1.0", "z3-new"}, {"z3-4.8.12", "z3"}}
-	open := groups
+	open := proofGroups
 	for round, sv := range order {
 		if len(open) == 0 {
 			break
 		}
+		savedMs := opt.BatchMs
+		if round > 0 {
+			// the later back ends only get a short limit: what is still open goes to the per-obligation race
+			opt.BatchMs = 600
+		}
 		ans, el, err := runBatch(sv.name, sv.bin, fmt.Sprintf("batch%d.smt2", round), open)
+		opt.BatchMs = savedMs
 		if err != nil {
 			return nil, err
 		}
@@ -442,12 +483,13 @@ func single(res *vc.UnitResult, i int, dir string, opt Options, prev Status) Sta
 	}
 	if best.Result == "sat" && !o.Cover {
 		var terms []string
-		for _, mt := range res.ModelTerms {
+		all := append(append([]vc.ModelTerm(nil), o.ModelTerms...), res.ModelTerms...)
+		for _, mt := range all {
 			terms = append(terms, mt.Term)
 		}
 		if vals, err := Values(file, terms); err == nil {
 			var sb strings.Builder
-			for _, mt := range res.ModelTerms {
+			for _, mt := range all {
 				if v, ok := vals[mt.Term]; ok {
 					fmt.Fprintf(&sb, "%s = %s\n", mt.Label, v)
 				}
